@@ -34,11 +34,13 @@ pub const QS: Shape = Shape {
     limit_mask: 3, limit_max: 4, dl_mask: 3, b_mask: 1,
 };
 
-/// two other tasks (one job each) with distinct deadlines and segment lengths: the blocking
-/// term must take the largest segment among *all* lower-priority tasks
+/// two other tasks (one job each): exercises the k-merge of two shifted step streams.  With
+/// limit <= 3 all three WCETs are 1, so the segments cannot differ; the same shape with
+/// limit <= 5 (needed to tell `max` from `min` in the blocking term, seeded change C02-2)
+/// grew beyond 28 GB / 1 h and was dropped (DESIGN.md section 10)
 pub const QE2: Shape = Shape {
     n_tua: 1, n_others: 2, n_oth: 1, inc_mask: 3, cost_mask: 1,
-    limit_mask: 7, limit_max: 5, dl_mask: 3, b_mask: 0,
+    limit_mask: 3, limit_max: 3, dl_mask: 3, b_mask: 0,
 };
 
 pub fn fp_body(s: &mut crate::Src, kind: Kind, sh: &Shape) {
@@ -95,8 +97,8 @@ harness!(c06_edf_lp_t, 6, |s| { edf_body(s, Kind::Limited, &TE); });
 harness!(c06_edf_fl_t, 6, |s| { edf_body(s, Kind::Floating, &TE); });
 harness!(c06_fifo_t, 8, |s| { fifo_body(s, &T); });
 harness!(c06_edf_np_never_t, 5, |s| { edf_body(s, Kind::NonPreemptive, &QEN); });
-harness!(c06_edf_fl_two_others_t, 7, |s| { edf_body(s, Kind::Floating, &QE2); });
-harness!(c06_edf_np_two_others_t, 7, |s| { edf_body(s, Kind::NonPreemptive, &QE2); });
+harness!(c06_edf_fl_two_others_t, 5, |s| { edf_body(s, Kind::Floating, &QE2); });
+harness!(c06_edf_np_two_others_t, 5, |s| { edf_body(s, Kind::NonPreemptive, &QE2); });
 
 // ---- instances with the crate's real Sporadic type (jitter larger than the period included):
 // the reference counts arrivals by the textbook formula ceil((delta + J) / T)
